@@ -179,7 +179,8 @@ func (c nullFloatCodec) Write(w *avro.WriteBuf, p unsafe.Pointer) {
 	// I think we'll expect this codec to always be wrapped by a null union
 	// codec, so checking for empty would be done elsewhere.
 	ni := *(*null.Float)(p)
-	c.FloatCodec.Write(w, unsafe.Pointer(&ni.Float64))
+	f := float32(ni.Float64)
+	c.FloatCodec.Write(w, unsafe.Pointer(&f))
 }
 
 func buildNullStringCodec(schema avro.Schema, typ reflect.Type, omit bool) (avro.Codec, error) {
